@@ -14,7 +14,7 @@ func init() {
 		ID: "C16", Run: runC16, QuickRuns: 10000, ThoroughRuns: 150000,
 		Rule:       "Each run: a history of 1..60 (thorough: up to 1500, enough to wrap the 1 MiB span several times) string/binary decodes with the buffer readers and with the stream reader over a simulated Source, lengths across the span allocator's classes (0, <128B, 128B..128KiB, larger); every decoded value is retained; after each batch tape-chosen disturbances: overwrite the input buffer, Release the stream reader so its buffer is recycled (poisoned / taken by the co-tenant), append to and write through returned byte slices. The same pre-generated history is executed with the span cache disabled and enabled and the result sequences are compared.",
 		Components: realComponents,
-		Probes:     []string{"len_0", "len_lt_128", "len_128_to_128k", "len_gt_128k", "input_overwritten", "reader_released", "append_to_result", "write_through_result", "span_enabled_runs"},
+		Probes:     []string{"len_0", "len_lt_128", "len_128_to_128k", "len_gt_128k", "input_overwritten", "reader_released", "append_to_result", "write_through_result", "span_enabled_runs", "repeated_value"},
 	})
 }
 
@@ -69,9 +69,22 @@ func runC16(c *sim.Ctx) {
 			c.Count("probe.len_128_to_128k")
 		default:
 			n = 131072 + st.Choose(3)*1000
+			if c.Tier == "thorough" && nops < 20 && st.Chance(1, 40) {
+				n = 16<<20 + 1 + st.Choose(3)*4096 // a blob past every allocator threshold
+				c.Count("probe.len_gt_16MiB")
+			}
 			c.Count("probe.len_gt_128k")
 		}
 		op := c16Op{stream: st.Chance(1, 2), binary: st.Chance(1, 2), val: sim.KeyedBytes(key+uint64(i)*13, 0, n)}
+		if i > 0 && st.Chance(1, 5) {
+			// the same content twice in a row (a repeated method name, key or blob): the
+			// second value must still be a copy of its own
+			prev := ops[i-1]
+			op.val = append([]byte(nil), prev.val...)
+			op.stream = prev.stream
+			op.binary = !prev.binary || st.Chance(1, 2)
+			c.Count("probe.repeated_value")
+		}
 		if st.Chance(1, 6) {
 			op.msg, op.binary = true, false
 		}
@@ -270,21 +283,15 @@ func c16Pass(c *sim.Ctx, ops []c16Op, script []int, scfg sim.SourceCfg, span boo
 			co.step()
 			verify("the co-tenant reused the recycled buffer", -1)
 		}
-		// disturbances through a returned byte slice
-		if lastBin >= 0 && lastBin < len(kept) && !kept[lastBin].isStr {
-			k := &kept[lastBin]
-			switch script[i] {
-			case 1, 3:
-				grown := append(k.b, 0xA1, 0xA2, 0xA3, 0xA4, 0xA5, 0xA6, 0xA7, 0xA8)
-				for x := len(k.b); x < len(grown); x++ {
-					grown[x] = 0xA0
+		// disturbances through the returned byte slices of this batch: their owner overwrites
+		// them; nothing else (input, strings, other slices) may change
+		_ = lastBin
+		if script[i] == 2 || script[i] == 3 {
+			for q := range kept {
+				k := &kept[q]
+				if k.isStr || k.opIdx < i || len(k.b) == 0 {
+					continue
 				}
-				_ = grown
-				c.Count("probe.append_to_result")
-				verify("8 bytes were appended to a returned byte slice", -1)
-			}
-			switch script[i] {
-			case 2, 3:
 				nw := make([]byte, len(k.b))
 				for x := range k.b {
 					k.b[x] ^= 0xFF
@@ -292,7 +299,7 @@ func c16Pass(c *sim.Ctx, ops []c16Op, script []int, scfg sim.SourceCfg, span boo
 				}
 				k.want = nw
 				c.Count("probe.write_through_result")
-				verify("a returned byte slice was overwritten by its owner", lastBin)
+				verify("a returned byte slice was overwritten by its owner", q)
 			}
 		}
 		c.Abs(0x600000 | b2u(ops[i].stream)<<16 | uint32(j-i)<<8 | sizeBucket(len(input)))
